@@ -1,173 +1,301 @@
-"""Fail-closed translator: `instantiate_internal` / `instantiate_in_place` of rust/src/lib.rs -> coq/Gen/InstFn.v.
+"""Fail-closed STATEMENT-LEVEL translator: `instantiate_internal` / `instantiate_in_place` of rust/src/lib.rs -> coq/Gen/InstFn.v.
 
-The function is written in a handful of fixed idioms; every match arm must be one of the templates below (after whitespace
-normalisation). From the MetaVar arm the translator extracts WHICH constraint lists are checked with WHICH judgement; from the other
-arms which constructor is rebuilt and which substitution function is applied. Anything else aborts (SystemExit), so a rewritten arm
-breaks the proof stage and sends the check to its search stage.
+Every arm of `match p.as_ref()` is translated statement by statement (recursive calls, `is_none()` tests, the re-assignments
+`x = Some(Rc::clone(y))`, `unwrap()`, `?`, the constraint scans `LIST.into_iter().find(|&v| !plugs[pos].JUDGE(*v))`, the bounds check, `return`),
+Rust `Option<Rc<Pattern>>` locals become `option pat`, a panic anywhere (index out of range, unwrap of None, panic!/assert) becomes `IPanic`.
+So WHICH constraint list is checked with WHICH judgement, which sub-results are combined how and which substitution function is re-applied
+come from the source text; renaming locals or reflowing changes nothing. `ML/GenAgree.v` proves the result equal to the model's `inst`.
 Result type of the generated function: IPanic | IUnchanged (Rust `None`) | IChanged q (Rust `Some(q)`).
 """
 import os
 import re
 import sys
 
+sys.path.insert(0, os.path.dirname(os.path.abspath(__file__)))
+from rust_exec import norm, find_fn, split_stmts, split_arms, split_top, match_close  # noqa: E402
+
 
 def fail(msg):
     raise SystemExit('rust_inst translator: ' + msg)
 
 
-def norm(s):
-    s = re.sub(r'//[^\n]*', '', s)
-    return ' '.join(s.split())
+def v(n):
+    return 'v_' + n
 
 
-def find_fn(src, name):
-    m = re.search(r'\nfn ' + name + r'\(', src)
-    if not m:
-        fail(f'fn {name} not found')
-    start = m.start() + 1
-    i = src.index('{', start)
-    depth, j = 0, i
-    while True:
-        if src[j] == '{':
-            depth += 1
-        elif src[j] == '}':
-            depth -= 1
-            if depth == 0:
-                break
-        j += 1
-    return src[start:j + 1]
+JUDGE = {'e_fresh': 'gen_e_fresh', 's_fresh': 'gen_s_fresh', 'positive': 'gen_positive', 'negative': 'gen_negative'}
+CONS = {'implies': ('Imp', 2), 'app': ('App', 2), 'exists': ('Ex', 2), 'mu': ('Mu', 2), 'evar': ('EVar', 1), 'svar': ('SVar', 1), 'symbol': ('Sym', 1),
+        'esubst': ('ESub', 3), 'ssubst': ('SSub', 3)}
+FIELDS = {'Implies': ('Imp', ['left', 'right']), 'App': ('App', ['left', 'right']), 'Exists': ('Ex', ['var', 'subpattern']),
+          'Mu': ('Mu', ['var', 'subpattern']), 'MetaVar': ('MVar', ['id', 'e_fresh', 's_fresh', 'positive', 'negative', 'app_ctx_holes']),
+          'ESubst': ('ESub', ['pattern', 'evar_id', 'plug']), 'SSubst': ('SSub', ['pattern', 'svar_id', 'plug'])}
+TUPLE = {'EVar': 'EVar', 'SVar': 'SVar', 'Symbol': 'Sym'}
 
 
-def split_arms(body):
-    """body = text between the braces of `match p.as_ref() { ... }`; returns list of arm texts"""
-    arms, depth, cur = [], 0, ''
-    i = 0
-    while i < len(body):
-        ch = body[i]
-        cur += ch
-        if ch in '{(':
-            depth += 1
-        elif ch in '})':
-            depth -= 1
-            if depth == 0 and ch == '}' and '=>' in cur:
-                # arm with a block body ends at its closing brace (optionally followed by a comma)
-                j = i + 1
-                while j < len(body) and body[j] == ' ':
-                    j += 1
-                if j < len(body) and body[j] == ',':
-                    i = j
-                arms.append(cur.strip())
-                cur = ''
-        elif ch == ',' and depth == 0 and '=>' in cur:
-            arms.append(cur.strip().rstrip(','))
-            cur = ''
-        i += 1
-    if cur.strip():
-        arms.append(cur.strip())
-    return arms
+class Tr:
+    def __init__(self):
+        self.n = 0
+        self.opts = set()      # locals of Rust type Option<Rc<Pattern>>
+
+    def tmp(self):
+        self.n += 1
+        return f't{self.n}'
+
+    # ---- pattern-valued expressions; pre = list of (kind, binder, arg) evaluated left to right ---------------------------------------------
+    def expr(self, e, pre):
+        e = e.strip()
+        m = re.fullmatch(r'Rc::clone\(&?plugs\[(\w+)\]\)', e)
+        if m:
+            t = self.tmp()
+            pre.append(('index', t, v(m.group(1))))
+            return t
+        m = re.fullmatch(r'Rc::clone\(&?(\w+)\)', e) or re.fullmatch(r'&(\w+)', e) or re.fullmatch(r'\*(\w+)', e)
+        if m:
+            return v(m.group(1))
+        m = re.fullmatch(r'&?(\w+)\.unwrap\(\)', e)
+        if m:
+            if m.group(1) not in self.opts:
+                fail('unwrap of a non-option local: ' + e)
+            t = self.tmp()
+            pre.append(('unwrap', t, v(m.group(1))))
+            return t
+        m = re.fullmatch(r'(\w+)\?', e)
+        if m:
+            if m.group(1) not in self.opts:
+                fail('? on a non-option local: ' + e)
+            t = self.tmp()
+            pre.append(('try', t, v(m.group(1))))
+            return t
+        if re.fullmatch(r'[a-z_]\w*', e):
+            if e in self.opts:
+                fail('option local used as a pattern: ' + e)
+            return v(e)
+        m = re.fullmatch(r'(\w+)\((.*)\)', e)
+        if m and match_close(e, len(m.group(1))) == len(e) - 1:
+            f, args = m.group(1), split_top(m.group(2))
+            if f in CONS:
+                c, ar = CONS[f]
+                if len(args) != ar:
+                    fail(f'{f} applied to {len(args)} arguments')
+                return '(' + c + ' ' + ' '.join(self.expr(a, pre) for a in args) + ')'
+            if f in ('apply_esubst', 'apply_ssubst') and len(args) == 3:
+                a = [self.expr(x, pre) for x in args]
+                t = self.tmp()
+                pre.append(('partial', t, f'gen_{f} {a[0]} {a[1]} {a[2]}'))
+                return t
+            fail('unknown function in expression: ' + e[:80])
+        fail('unrecognised expression: ' + e[:100])
+
+    def wrap(self, pre, body):
+        for kind, t, arg in reversed(pre):
+            if kind == 'index':
+                body = f'match nth_error plugs {arg} with Some {t} => {body} | None => IPanic end'
+            elif kind == 'unwrap':
+                body = f'match {arg} with Some {t} => {body} | None => IPanic end'
+            elif kind == 'try':
+                body = f'match {arg} with Some {t} => {body} | None => IUnchanged end'
+            elif kind == 'partial':
+                body = f'match {arg} with Some {t} => {body} | None => IPanic end'
+        return body
+
+    def result(self, e):
+        """value of the function: `None` | `Some(EXPR)`"""
+        e = e.strip()
+        if e == 'None':
+            return 'IUnchanged'
+        m = re.fullmatch(r'Some\((.*)\)', e)
+        if m and match_close(e, 4) == len(e) - 1:
+            pre = []
+            x = self.expr(m.group(1), pre)
+            return self.wrap(pre, f'IChanged {x}')
+        fail('unrecognised result expression: ' + e[:100])
+
+    def cond(self, c):
+        c = c.strip()
+        parts = split_top(c.replace('&&', '\x00'), '\x00')
+        if len(parts) > 1:
+            return '(' + ' && '.join(self.cond(p) for p in parts) + ')'
+        parts = split_top(c.replace('||', '\x00'), '\x00')
+        if len(parts) > 1:
+            return '(' + ' || '.join(self.cond(p) for p in parts) + ')'
+        m = re.fullmatch(r'(\w+)\.is_none\(\)', c)
+        if m and m.group(1) in self.opts:
+            return f'(is_none {v(m.group(1))})'
+        m = re.fullmatch(r'(\w+)\.is_some\(\)', c)
+        if m and m.group(1) in self.opts:
+            return f'(negb (is_none {v(m.group(1))}))'
+        m = re.fullmatch(r'(\w+) >= plugs\.len\(\)', c)
+        if m:
+            return f'(Nat.leb (length plugs) {v(m.group(1))})'
+        if c.startswith('!'):
+            return f'(negb {self.cond(c[1:])})'
+        fail('unrecognised condition: ' + c[:100])
+
+    def is_panic(self, s):
+        return re.fullmatch(r'(panic|unimplemented|unreachable)!\(.*\);?', s.strip()) is not None
+
+    def block(self, stmts, rest):
+        """stmts: statements of a block whose LAST one may be the tail expression; rest(): what follows the block when it falls through
+        (None = the block is the function body's tail: its last statement is the value)"""
+        if not stmts:
+            if rest is None:
+                fail('block without a value')
+            return rest()
+        s, more = stmts[0].strip().rstrip(';').strip(), stmts[1:]
+
+        def after():
+            return self.block(more, rest)
+        # return
+        m = re.fullmatch(r'return (.*)', s)
+        if m:
+            return self.result(m.group(1))
+        if self.is_panic(s):
+            return 'IPanic'
+        # recursive call bound to an option local
+        m = re.fullmatch(r'let (?:mut )?(\w+) = instantiate_internal\(&?(\w+), vars, plugs\)', s)
+        if m:
+            x, y = m.groups()
+            self.opts.add(x)
+            return f'match gen_inst_internal {v(y)} vars plugs with IPanic => IPanic | r_{x} => let {v(x)} := ires_opt r_{x} in {after()} end'
+        m = re.fullmatch(r'let (\w+) = instantiate_internal\(&?(\w+), vars, plugs\)\?', s)
+        if m:
+            x, y = m.groups()
+            return f'match gen_inst_internal {v(y)} vars plugs with IPanic => IPanic | IUnchanged => IUnchanged | IChanged {v(x)} => {after()} end'
+        m = re.fullmatch(r'let (\w+) = instantiate_internal\(&?(\w+), vars, plugs\)\.unwrap_or(?:_else)?\((?:\|\| )?Rc::clone\(&?(\w+)\)\)', s)
+        if m:
+            x, y, z = m.groups()
+            return f'match gen_inst_internal {v(y)} vars plugs with IPanic => IPanic | r_{x} => let {v(x)} := ires_val r_{x} {v(z)} in {after()} end'
+        # constraint scan
+        m = re.fullmatch(r'if let Some\((\w+)\) = (\w+)\.into_iter\(\)\.find\(\|&(\w+)\| !plugs\[(\w+)\]\.(\w+)\(\*(\w+)\)\) \{ (.*) \}', s)
+        if m:
+            v1, lst, v2, pos, meth, v3, body = m.groups()
+            if not (v1 == v2 == v3) or meth not in JUDGE or not self.is_panic(body):
+                fail('odd constraint scan: ' + s[:120])
+            return f'match check_all {JUDGE[meth]} plugs {v(pos)} {v(lst)} with Some true => {after()} | _ => IPanic end'
+        # position lookup
+        m = re.fullmatch(r'if let Some\((\w+)\) = vars\.iter\(\)\.position\(\|&(\w+)\| (\w+) == \*(\w+)\) \{ (.*) \}', s)
+        if m and match_close(s, s.index('{')) == len(s) - 1:
+            pos, x1, x2, idv, body = m.groups()
+            if x1 != x2:
+                fail('odd position closure: ' + s[:120])
+            inner = self.block(split_stmts(body), after if (more or rest) else None)
+            return f'match position {v(idv)} vars with Some {v(pos)} => {inner} | None => {after()} end'
+        # if / else
+        m = re.fullmatch(r'if (.*?) \{ (.*) \}', s)
+        if m:
+            i = s.index('{')
+            j = match_close(s, i)
+            c = s[3:i].strip()
+            then = s[i + 1:j].strip()
+            tail = s[j + 1:].strip()
+            if tail.startswith('else'):
+                k = tail.index('{')
+                if match_close(tail, k) != len(tail) - 1:
+                    fail('else block: ' + tail[:80])
+                els = tail[k + 1:-1].strip()
+                last = not more
+                t1 = self.block(split_stmts(then), (after if not last else rest))
+                t2 = self.block(split_stmts(els), (after if not last else rest))
+                return f'if {self.cond(c)} then {t1} else {t2}'
+            if tail:
+                fail('text after if block: ' + tail[:80])
+            # no else: either a guard (panic) or re-assignments of option locals
+            ts = split_stmts(then)
+            if len(ts) == 1 and self.is_panic(ts[0]):
+                return f'if {self.cond(c)} then IPanic else {after()}'
+            assigns = []
+            for a in ts:
+                mm = re.fullmatch(r'(\w+) = Some\((.*)\);?', a.strip())
+                if not mm or mm.group(1) not in self.opts:
+                    fail('statement in an else-less if is not `opt = Some(..)`: ' + a[:100])
+                pre = []
+                e = self.expr(mm.group(2), pre)
+                if pre:
+                    fail('partial expression in a re-assignment: ' + a[:100])
+                assigns.append((mm.group(1), e))
+            cc = self.cond(c)
+            out = after()
+            for x, e in reversed(assigns):
+                out = f'let {v(x)} := if {cc} then Some {e} else {v(x)} in {out}'
+            return out
+        # plain let of a pattern
+        m = re.fullmatch(r'let (\w+) = (.*)', s)
+        if m:
+            pre = []
+            e = self.expr(m.group(2), pre)
+            return self.wrap(pre, f'let {v(m.group(1))} := {e} in {after()}')
+        # tail expression
+        if not more and rest is None:
+            return self.result(s)
+        fail('unrecognised statement: ' + s[:140])
 
 
-ATOM = re.compile(r'^Pattern::(EVar|SVar|Symbol)\(_\) => None$')
-BIN = re.compile(r'^Pattern::(Implies|App) \{ left, right \} => \{ let mut inst_left = instantiate_internal\(&left, vars, plugs\); '
-                 r'let mut inst_right = instantiate_internal\(&right, vars, plugs\); if inst_left\.is_none\(\) && inst_right\.is_none\(\) \{ None \} '
-                 r'else \{ if inst_left\.is_none\(\) \{ inst_left = Some\(Rc::clone\(left\)\); \} if inst_right\.is_none\(\) \{ inst_right = Some\(Rc::clone\(right\)\); \} '
-                 r'Some\((implies|app)\(inst_left\.unwrap\(\), inst_right\.unwrap\(\)\)\) \} \}$')
-BINDER = re.compile(r'^Pattern::(Exists|Mu) \{ var, subpattern \} => \{ let new_sub = instantiate_internal\(&subpattern, vars, plugs\); '
-                    r'Some\((exists|mu)\(\*var, new_sub\?\)\) \}$')
-SUBST = re.compile(r'^Pattern::(ESubst|SSubst) \{ pattern, (evar_id|svar_id), plug, \} => \{ let mut inst_pattern = instantiate_internal\(pattern, vars, plugs\); '
-                   r'let mut inst_plug = instantiate_internal\(plug, vars, plugs\); if inst_pattern\.is_none\(\) && inst_plug\.is_none\(\) \{ None \} '
-                   r'else \{ if inst_pattern\.is_none\(\) \{ inst_pattern = Some\(Rc::clone\(pattern\)\); \} if inst_plug\.is_none\(\) \{ inst_plug = Some\(Rc::clone\(plug\)\); \} '
-                   r'Some\((apply_esubst|apply_ssubst)\( &inst_pattern\.unwrap\(\), \*(evar_id|svar_id), &inst_plug\.unwrap\(\), \)\) \} \}$')
-MV_HEAD = re.compile(r'^Pattern::MetaVar \{ id, e_fresh, s_fresh, positive, negative, \.\. \} => \{ if let Some\(pos\) = vars\.iter\(\)\.position\(\|&x\| x == \*id\) \{ (.*) '
-                     r'if pos >= plugs\.len\(\) \{ panic!\("[^"]*"\) \} return Some\(Rc::clone\(&plugs\[pos\]\)\); \} None \}$')
-MV_CHECK = re.compile(r'if let Some\((\w+)\) = (\w+) ?\.into_iter\(\) ?\.find\(\|&(\w+)\| !plugs\[pos\]\.(\w+)\(\*(\w+)\)\) \{ panic!\( ?"[^"]*"(?:, \w+)*,? ?\); \}')
-
-JUDGE = {'e_fresh': 'e_fresh', 's_fresh': 's_fresh', 'positive': 'pat_positive', 'negative': 'pat_negative'}
-LISTV = {'e_fresh': 'ef', 's_fresh': 'sf', 'positive': 'ps', 'negative': 'ng'}
-CT = {'Implies': ('Imp', 'implies'), 'App': ('App', 'app'), 'Exists': ('Ex', 'exists'), 'Mu': ('Mu', 'mu')}
+def coq_pattern(pat):
+    m = re.fullmatch(r'Pattern::(\w+)\((\w+)\)', pat)
+    if m and m.group(1) in TUPLE:
+        return m.group(1), f'{TUPLE[m.group(1)]} {"_" if m.group(2) == "_" else v(m.group(2))}'
+    m = re.fullmatch(r'Pattern::(\w+) \{ (.*) \}', pat)
+    if m and m.group(1) in FIELDS:
+        c, names = FIELDS[m.group(1)]
+        given = [x.strip() for x in m.group(2).split(',')]
+        rest = '..' in given
+        given = [g for g in given if g != '..']
+        bind = {}
+        for g in given:
+            if ':' in g:
+                k, val = [x.strip() for x in g.split(':', 1)]
+            else:
+                k = val = g
+            if k not in names or not re.fullmatch(r'\w+', val):
+                fail(f'field {g} in pattern {pat}')
+            bind[k] = val
+        if not rest and sorted(bind) != sorted(names):
+            fail(f'pattern {pat} does not name every field')
+        return m.group(1), c + ' ' + ' '.join(v(bind[k]) if k in bind else '_' for k in names)
+    fail('unrecognised match pattern: ' + pat)
 
 
 def generate(repo):
     src = open(os.path.join(repo, 'rust/src/lib.rs')).read()
+    src = src.split('\n#[cfg(test)]\nmod tests')[0]
     fn = norm(find_fn(src, 'instantiate_internal'))
-    m = re.match(r'^fn instantiate_internal\( p: &Rc<Pattern>, vars: &\[Id\], plugs: &\[Rc<Pattern>\], \) -> Option<Rc<Pattern>> \{ match p\.as_ref\(\) \{ (.*) \} \}$', fn)
+    m = re.fullmatch(r'fn instantiate_internal\(p: &Rc<Pattern>, vars: &\[Id\], plugs: &\[Rc<Pattern>\]\) -> Option<Rc<Pattern>> \{ match p\.as_ref\(\) \{ (.*) \} \}', fn)
     if not m:
-        fail('unexpected signature / body shape of instantiate_internal')
-    arms = split_arms(m.group(1))
+        fail('unexpected signature / body shape of instantiate_internal: ' + fn[:200])
     inplace = norm(find_fn(src, 'instantiate_in_place'))
-    if inplace != 'fn instantiate_in_place(p: &mut Rc<Pattern>, vars: &[Id], plugs: &[Rc<Pattern>]) { if let Some(ret) = instantiate_internal(p, vars, plugs) { *p = ret } }':
-        fail('instantiate_in_place is not the expected wrapper: ' + inplace[:120])
-    out = {}
-    for arm in arms:
-        a = arm.rstrip(',').strip()
-        mm = ATOM.match(a)
-        if mm:
-            out[mm.group(1)] = '  | %s _ => IUnchanged' % {'EVar': 'EVar', 'SVar': 'SVar', 'Symbol': 'Sym'}[mm.group(1)]
-            continue
-        mm = BIN.match(a)
-        if mm:
-            c, b = CT[mm.group(1)]
-            if mm.group(2) != b:
-                fail(f'{mm.group(1)} arm rebuilds with {mm.group(2)}')
-            out[mm.group(1)] = (f'  | {c} l r => match gen_inst_internal l vars plugs, gen_inst_internal r vars plugs with\n'
-                                f'      | IPanic, _ | _, IPanic => IPanic\n      | IUnchanged, IUnchanged => IUnchanged\n'
-                                f'      | a, b => IChanged ({c} (ires_val a l) (ires_val b r)) end')
-            continue
-        mm = BINDER.match(a)
-        if mm:
-            c, b = CT[mm.group(1)]
-            if mm.group(2) != b:
-                fail(f'{mm.group(1)} arm rebuilds with {mm.group(2)}')
-            out[mm.group(1)] = (f'  | {c} x q => match gen_inst_internal q vars plugs with\n'
-                                f'      | IPanic => IPanic | IUnchanged => IUnchanged | IChanged q\' => IChanged ({c} x q\') end')
-            continue
-        mm = SUBST.match(a)
-        if mm:
-            kind, v1, fnname, v2 = mm.groups()
-            want = ('evar_id', 'apply_esubst') if kind == 'ESubst' else ('svar_id', 'apply_ssubst')
-            if (v1, fnname) != want or v2 != v1:
-                fail(f'{kind} arm uses {fnname} / {v1} / {v2}')
-            c = 'ESub' if kind == 'ESubst' else 'SSub'
-            out[kind] = (f'  | {c} q x plug => match gen_inst_internal q vars plugs, gen_inst_internal plug vars plugs with\n'
-                         f'      | IPanic, _ | _, IPanic => IPanic\n      | IUnchanged, IUnchanged => IUnchanged\n'
-                         f'      | a, b => match {fnname} guards_sound (ires_val a q) x (ires_val b plug) with Some c => IChanged c | None => IPanic end end')
-            continue
-        mm = MV_HEAD.match(a)
-        if mm:
-            checks_txt = mm.group(1).strip()
-            checks = []
-            pos = 0
-            while pos < len(checks_txt):
-                cm = MV_CHECK.match(checks_txt, pos)
-                if not cm:
-                    fail('MetaVar arm: unexpected constraint check near ' + checks_txt[pos:pos + 80])
-                v1, lst, v2, meth, v3 = cm.groups()
-                if not (v1 == v2 == v3) or lst not in LISTV or meth not in JUDGE:
-                    fail(f'MetaVar arm: odd constraint check {cm.group(0)[:80]}')
-                checks.append((lst, meth))
-                pos = cm.end()
-                while pos < len(checks_txt) and checks_txt[pos] == ' ':
-                    pos += 1
-            body = 'IChanged plug'
-            for lst, meth in reversed(checks):
-                body = f'if forallb ({JUDGE[meth]} plug) {LISTV[lst]} then {body} else IPanic'
-            out['MetaVar'] = ('  | MVar id ef sf ps ng _ => match position id vars with\n'
-                              '      | Some k => match nth_error plugs k with Some plug => ' + body + ' | None => IPanic end\n'
-                              '      | None => IUnchanged end')
-            continue
-        fail('unrecognised match arm: ' + a[:160])
+    mi = re.fullmatch(r'fn instantiate_in_place\(p: &mut Rc<Pattern>, vars: &\[Id\], plugs: &\[Rc<Pattern>\]\) \{ if let Some\((\w+)\) = instantiate_internal\(p, vars, plugs\) '
+                      r'\{ \*p = (\w+);? \} \}', inplace)
+    if not mi or mi.group(1) != mi.group(2):
+        fail('instantiate_in_place is not the expected wrapper: ' + inplace[:160])
+    out, seen = [], []
+    for pat, text, is_block in split_arms(m.group(1)):
+        if ' if ' in pat:
+            fail('guarded arm in instantiate_internal: ' + pat)
+        name, cp = coq_pattern(pat)
+        if name in seen:
+            fail('duplicate arm ' + name)
+        seen.append(name)
+        t = Tr()
+        code = t.block(split_stmts(text) if is_block else [text], None)
+        out.append(f'  | {cp} => {code}')
     need = ['EVar', 'SVar', 'Symbol', 'MetaVar', 'Implies', 'App', 'Exists', 'Mu', 'ESubst', 'SSubst']
-    for n in need:
-        if n not in out:
-            fail(f'no arm for {n}')
-    lines = ['(** GENERATED by translators/rust_inst.py from rust/src/lib.rs (instantiate_internal, instantiate_in_place) — do not edit *)',
-             'From Coq Require Import NArith List Bool.', 'From Pi2 Require Import ML.Syntax ML.Subst.', 'Import ListNotations.', 'Open Scope N_scope.', '',
+    if sorted(seen) != sorted(need):
+        fail('arms found: ' + ','.join(seen))
+    lines = ['(** GENERATED by translators/rust_inst.py from rust/src/lib.rs (instantiate_internal, instantiate_in_place; statement level) — do not edit *)',
+             'From Coq Require Import NArith List Bool.', 'From Pi2 Require Import ML.Syntax ML.Subst Gen.Judge Gen.SubstFns.', 'Import ListNotations.', 'Open Scope N_scope.', '',
              'Inductive ires := IPanic | IUnchanged | IChanged (q:pat).',
              'Definition ires_val (r:ires) (orig:pat) : pat := match r with IChanged q => q | _ => orig end.',
+             '(** a non-panicking result as the Rust [Option] *)',
+             'Definition ires_opt (r:ires) : option pat := match r with IChanged q => Some q | _ => None end.',
+             'Definition is_none (o:option pat) : bool := match o with None => true | Some _ => false end.',
+             '(** [vars.iter().position(|&x| x == id)] *)',
              'Fixpoint position (id:N) (vars:list N) : option nat :=',
-             '  match vars with [] => None | v::vs => if N.eqb v id then Some O else option_map S (position id vs) end.', '',
+             '  match vars with [] => None | v::vs => if N.eqb v id then Some O else option_map S (position id vs) end.',
+             '(** [l.into_iter().find(|&v| !plugs[pos].judge(v))] is None: [None] = the index panics (only evaluated for a non-empty list) *)',
+             'Definition check_all (judge:pat -> N -> bool) (plugs:list pat) (pos:nat) (l:list N) : option bool :=',
+             '  match l with [] => Some true | _ :: _ => match nth_error plugs pos with Some plug => Some (forallb (judge plug) l) | None => None end end.', '',
              'Fixpoint gen_inst_internal (p:pat) (vars:list N) (plugs:list pat) {struct p} : ires :=', '  match p with']
-    lines += [out[n] for n in need]
+    lines += out
     lines += ['  end.', '',
               '(** instantiate_in_place: [None] = panic *)',
               'Definition gen_instantiate_in_place (p:pat) (vars:list N) (plugs:list pat) : option pat :=',
